@@ -41,6 +41,7 @@ class Verifier(Stmts):
         self.key_projection = {}
         self.ctor_param_fields = {}
         self.vacuity = []
+        self.external_result_types = {'recv': BYTES, 'send': INT}
         self._pyeq_defined = set()
         self.opaque_eq_classes = set()
         self.used_contracts = set()
@@ -228,10 +229,14 @@ class Verifier(Stmts):
                 result = None if ctl is None else ctl.val
                 self.check_normal(con, qualname, s, result, pre_frame_vars)
                 self.check_frame(con, qualname, s)
+                if getattr(s, 'locks_held', 0):
+                    self.check_locks(qualname, s)
             elif ctl.kind == 'raise':
                 info['raising_paths'] += 1
                 self.check_raise(con, qualname, s, ctl.val, pre_frame_vars)
                 self.check_frame(con, qualname, s)
+                if getattr(s, 'locks_held', 0):
+                    self.check_locks(qualname, s)
             else:
                 raise Outside("loop control escaping function %s" % qualname)
         info['exec_seconds'] = round(time.time() - t0, 3)
@@ -318,6 +323,11 @@ class Verifier(Stmts):
                         for f in h.fields:
                             fields.add((val.loc, f))
         return fields, conts
+
+    def check_locks(self, qn, st):
+        held = getattr(st, 'locks_held', 0)
+        self.oblige(st, z3.BoolVal(held == 0), qn + ":lock-released",
+                    "a lock acquired with .acquire() is still held (%d) when this path ends" % held)
 
     def check_frame(self, con, qn, st):
         """heap frame: every field / container of the pre-state heap that the contract does not list under modifies has
